@@ -12,7 +12,7 @@ META = {
 }
 
 
-def evaluate(ctx, boxes, cfgs):
+def evaluate(ctx, boxes, cfgs, big=()):
     corr = Corr()
     corr.add_obl("nd_map_set"); corr.add_obl("nd_map_seq")
     exes = L.build(ctx, cfgs, what=("numeric",))
@@ -57,6 +57,21 @@ def evaluate(ctx, boxes, cfgs):
                 corr.notes.append(f"order differs from the model's lexicographic order for {sz} ({cfg}) — not part of the property")
             if len(corr.samples) < 5 and len(sz) >= 2 and 2 <= L.prod(sz) <= 12 and 0 not in sz:
                 corr.sample({"sz": sz, "cfg": cfg, "impl": o, "model": m})
+    # large boxes (an extent beyond 2^16 resp. 2^24): every tuple ticked off in a bitmap by the harness; release build only
+    if big:
+        cfg = "rel" if "rel" in cfgs else cfgs[0]
+        bouts, _ = C.run_lines(exes[("numeric", cfg)], [f"ndbig {len(sz)} " + " ".join(map(str, sz)) for sz in big], timeout_per_line=20, min_timeout=240)
+        for sz, o in zip(big, bouts):
+            corr.configs[cfg] += 1
+            corr.case(("big", sz, cfg), True)
+            corr.dist["big/dim%d" % len(sz)] += 1
+            want = f"{L.prod(sz)} 0 0 0"
+            bad = o != want
+            corr.add_obl("nd_map_set", 1, 1 if bad else 0)
+            if bad:
+                corr.violation("nd_map_set", f"nd_map over {sz} ({cfg}): `calls, cells never visited, visited more than once, outside the box` = "
+                               f"`{o}`, the box has {L.prod(sz)} cells", {"big": sz, "cfg": cfg}, impl=o, model=want, oracle_fails=True,
+                               key={"kind": "ndbig", "sz": sz}, cfg=cfg)
     corr.obl["nd_map_seq"]["note"] = "information only: call order equals the model's (lexicographic) order"
     # order is not part of the property: never let it fail the check
     corr.obl["nd_map_seq"]["disagreements_info"] = corr.obl["nd_map_seq"]["disagreements"]
@@ -95,11 +110,17 @@ def run(ctx):
                     k = max(range(N), key=lambda j: sz[j]); sz[k] = rnd.choice([1, 2, 16, 20])
                 boxes.append((ty, sz))
         boxes.append((ty, [16, 16])); boxes.append((ty, [20, 20])); boxes.append((ty, [255] if ty == "u8" else [300, 300] if ctx.quick else [300, 300]))
-    return evaluate(ctx, boxes, ["dbg", "rel", "omp"])
+    big = [[(1 << 24) + 1, 1], [1, (1 << 24) + 1], [1, 1, (1 << 24) + 1], [(1 << 16) + 1, 33], [3, (1 << 16) + 1, 2], [(1 << 20) + 3],
+           [2, (1 << 22) + 1], [257, 257, 3], [65537, 1, 1, 2]]
+    if not ctx.quick:
+        big += [[(1 << 25) + 1, 2], [5, 7, (1 << 18) + 1], [4097, 4097]]
+    return evaluate(ctx, boxes, ["dbg", "rel", "omp"], big)
 
 
 def replay(ctx):
     c = ctx.replay["case"]
+    if "big" in c:
+        return evaluate(ctx, [], [c.get("cfg", "rel")], [c["big"]])
     seq = [(c.get("ty", "u64"), c["sz"])]
     if c.get("previous_call_in_same_process"):
         seq.insert(0, tuple(c["previous_call_in_same_process"]))     # the failure may depend on the call before it
